@@ -16,6 +16,8 @@ func genAtomicity() {
 		fn          string
 		conditional bool
 		outerUses   []string
+		deferred    bool // the commit sits in a deferred closure (so it also runs while a panic unwinds)
+		panicGuard  bool // that closure tests recover() before the commit and re-panics
 	}
 	var rows []row
 	archiveUsers := map[string]bool{}
@@ -70,6 +72,29 @@ func genAtomicity() {
 				}
 				return true
 			})
+			// commit inside `defer func() { … }()`: does the closure look at recover() BEFORE it commits?
+			for _, st := range fd.Body.List {
+				ds, ok := st.(*ast.DeferStmt)
+				if !ok {
+					continue
+				}
+				fl, ok := ds.Call.Fun.(*ast.FuncLit)
+				if !ok || !strings.Contains(src(fl.Body), commitVar+"()") {
+					continue
+				}
+				r.deferred = true
+				for _, inner := range fl.Body.List {
+					text := src(inner)
+					if strings.Contains(text, commitVar+"()") {
+						break // the commit comes first: no guard
+					}
+					if is, ok := inner.(*ast.IfStmt); ok && is.Init != nil && strings.Contains(src(is.Init), "recover()") &&
+						strings.Contains(src(is.Cond), "!= nil") && strings.Contains(src(is.Body), "panic(") {
+						r.panicGuard = true
+						break
+					}
+				}
+			}
 			// unconditional top-level `commit()` statement?
 			for _, st := range fd.Body.List {
 				if es, ok := st.(*ast.ExprStmt); ok && src(es.X) == commitVar+"()" {
@@ -101,10 +126,10 @@ func genAtomicity() {
 	sort.Slice(rows, func(i, j int) bool { return rows[i].fn < rows[j].fn })
 	var b strings.Builder
 	b.WriteString("namespace Paloma.Gen.Atomicity\n\n")
-	b.WriteString("structure Cached where\n  fn : String\n  conditionalCommit : Bool\n  outerContextUses : List String\nderiving Repr\n\n")
+	b.WriteString("structure Cached where\n  fn : String\n  conditionalCommit : Bool\n  outerContextUses : List String\n  deferredCommit : Bool\n  panicGuard : Bool\nderiving Repr\n\n")
 	b.WriteString("def cachedFunctions : List Cached := [\n")
 	for i, r := range rows {
-		fmt.Fprintf(&b, "  { fn := %s, conditionalCommit := %v, outerContextUses := %s }", leanStr(r.fn), r.conditional, leanStrList(r.outerUses))
+		fmt.Fprintf(&b, "  { fn := %s, conditionalCommit := %v, outerContextUses := %s, deferredCommit := %v, panicGuard := %v }", leanStr(r.fn), r.conditional, leanStrList(r.outerUses), r.deferred, r.panicGuard)
 		if i < len(rows)-1 {
 			b.WriteString(",")
 		}
